@@ -52,6 +52,13 @@ func init() {
 				}
 			}
 		}
+		// ranks that differ by five and six
+		for _, pr := range [][2][]int{{{}, {2, 1, 1, 1, 2}}, {{2}, {1, 2, 1, 1, 1, 2}}, {{2}, {2, 1, 1, 1, 1, 1, 2}}} {
+			for _, mode := range []string{"multi", "uni"} {
+				p.Jobs = append(p.Jobs, Job{Harness: "ops.H_C14", Case: map[string]interface{}{"a": pr[0], "b": pr[1], "mode": mode, "dtype": "float32"}})
+				p.Jobs = append(p.Jobs, Job{Harness: "ops.H_C14", Case: map[string]interface{}{"a": pr[1], "b": pr[0], "mode": mode, "dtype": "float32"}})
+			}
+		}
 		// a few larger extents
 		for _, pr := range [][2][]int{{{4, 1}, {1, 4}}, {{3, 1, 4}, {4}}, {{4}, {4, 4}}, {{2, 4}, {4, 2}}, {{1, 4, 1}, {3, 1, 2}}, {{4}, {2}}, {{2, 3}, {4, 3}}, {{9}, {3}}} {
 			for _, mode := range []string{"multi", "uni"} {
